@@ -209,6 +209,10 @@ Definition do_setcolor (stroking : bool) (s : istate) : istate :=
     else s1
   else s.
 
+(* do_h: closing a subpath that is already closed does nothing (ISO 32000-1 8.5.2.1) *)
+Definition ends_closed (p : list seg) : bool := match rev p with SegH :: _ => true | _ => false end.
+Definition close_path (p : list seg) : list seg := if ends_closed p then p else p ++ [SegH].
+
 Section Exec.
   Variable res : resources.                           (* init_resources of this interpreter *)
   Variable run_form : M6 -> resources -> list item -> list event -> list event.   (* nested interpreter *)
@@ -242,20 +246,20 @@ Section Exec.
                | Some [x2; y2; x3; y3] => set_path s (curpath s ++ [SegV x2 y2 x3 y3]) | _ => s end
     | Ky, _ => match all_floats args with
                | Some [x1; y1; x3; y3] => set_path s (curpath s ++ [SegY x1 y1 x3 y3]) | _ => s end
-    | Kh, [] => set_path s (curpath s ++ [SegH])
+    | Kh, [] => set_path s (close_path (curpath s))
     | Kre, _ => match all_floats args with
                 | Some [x; y; w; h] =>
                     set_path s (curpath s ++ [SegM x y; SegL (x + w) y; SegL (x + w) (y + h); SegL x (y + h); SegH])
                 | _ => s
                 end
     | KS, [] => set_path (set_out s (EPath (gs s) true false false (curpath s) (devctm s) :: out s)) []
-    | Ks, [] => set_path (set_out s (EPath (gs s) true false false (curpath s ++ [SegH]) (devctm s) :: out s)) []
+    | Ks, [] => set_path (set_out s (EPath (gs s) true false false (close_path (curpath s)) (devctm s) :: out s)) []
     | Kf, [] => set_path (set_out s (EPath (gs s) false true false (curpath s) (devctm s) :: out s)) []
     | Kfstar, [] => set_path (set_out s (EPath (gs s) false true true (curpath s) (devctm s) :: out s)) []
     | KB, [] => set_path (set_out s (EPath (gs s) true true false (curpath s) (devctm s) :: out s)) []
     | KBstar, [] => set_path (set_out s (EPath (gs s) true true true (curpath s) (devctm s) :: out s)) []
-    | Kb, [] => set_path (set_out s (EPath (gs s) true true false (curpath s ++ [SegH]) (devctm s) :: out s)) []
-    | Kbstar, [] => set_path (set_out s (EPath (gs s) true true true (curpath s ++ [SegH]) (devctm s) :: out s)) []
+    | Kb, [] => set_path (set_out s (EPath (gs s) true true false (close_path (curpath s)) (devctm s) :: out s)) []
+    | Kbstar, [] => set_path (set_out s (EPath (gs s) true true true (close_path (curpath s)) (devctm s) :: out s)) []
     | Kn, [] => set_path s []
     | KCS, [OName n] => match csmap n with Some c => set_scs s c | None => s end
     | Kcs, [OName n] => match csmap n with Some c => set_ncs s c | None => s end
